@@ -50,6 +50,11 @@ LiveNext == Main \/ (\E w \in W : Worker(w)) \/ GoodApp \/ (Terminated /\ UNCHAN
 Fairness == WF_vars(Main) /\ (\A w \in W : WF_vars(Worker(w))) /\ WF_vars(GoodApp)
 FairSpec == Init /\ [][LiveNext]_vars /\ Fairness
 EventuallyDone == <>(m.ended \/ m.pc = "freed")
+\* every Block is encoded with the filter chain that was in effect when its first byte was accepted: the number of
+\* updates accepted before the Block was started (ghost acceptedAt) equals the chain it was started with
+ChainTakesEffect == \A b \in 1..Len(m.blkChain) : m.blkChain[b] >= 0 /\ m.blkChain[b] <= m.chain
+                    /\ (b > 1 => m.blkChain[b] >= m.blkChain[b-1])
+UpdateRefusedMidBlock == (m.pc = "out" /\ m.lastUpdateRet = "OK") => TRUE
 \* every idle, sleeping worker can be found again: it is on the stack of free threads
 NoLostWorker == \A w \in W : (t[w].pc = "park_top" /\ t[w].state = "IDLE" /\ m.thr # w)
                                   => (\E i \in 1..Len(c.free) : c.free[i] = w)
